@@ -115,7 +115,7 @@ fn read_frame(s: &mut TcpStream) -> Option<(OHeader, Vec<u8>)> {
 /// (already compressed if `zstd`) in `chunk`-byte chunks and closes the connection
 /// after `cut_after` responses (None = never).
 fn scripted_svs_server(wire: Vec<u8>, chunk: usize, format: u16, zstd: bool, cut_after: Option<usize>) -> SocketAddr {
-    let l = TcpListener::bind("127.0.0.1:0").unwrap();
+    let l = TcpListener::bind(crate::util::lo0().as_str()).unwrap();
     let addr = l.local_addr().unwrap();
     std::thread::spawn(move || {
         let Ok((mut s, _)) = l.accept() else { return };
@@ -181,7 +181,7 @@ fn library_server(c: &Case, kind: c09::Kind, fail_after: Option<usize>) -> Socke
         cancel_after: None,
     };
     let server = Server::new(c09::router_for(&case9));
-    let l = server.listen("127.0.0.1:0").unwrap();
+    let l = server.listen(crate::util::lo0().as_str()).unwrap();
     let addr = l.local_addr().unwrap();
     std::thread::spawn(move || {
         let _ = server.serve(l);
@@ -525,7 +525,7 @@ pub fn child(sub: &str) -> i32 {
     };
     let _ = pace;
     let server = Server::new(c09::router_for(&case9));
-    let l = server.listen("127.0.0.1:0").unwrap();
+    let l = server.listen(crate::util::lo0().as_str()).unwrap();
     let addr = l.local_addr().unwrap();
     std::thread::spawn(move || {
         let _ = server.serve(l);
